@@ -26,9 +26,13 @@ TRUSTED = ["model Relic.Model.Zip is hand-written; tied to lib/zipslicer by diff
            "Relic.Spec.Zip is hand-written from APPNOTE; validated against Go archive/zip on every run and CPython zipfile in the thorough tier",
            "Go archive/zip, compress/flate, hash/crc32, CPython zipfile as reference readers"]
 UNPROVED = ["read_agrees_spec_full (false: negation proved, F7a/F7c/F7d/F7e)",
-            "write_read_roundtrip_full (false: not_write_read_roundtrip_full); write_read_roundtrip_readable: statement only, checked dynamically (rounds 2, 3)",
-            "reemit_unmodified_full (false: not_reemit_unmodified_full)",
-            "stream_equals_random_access (checked dynamically only)"]
+            "write_read_roundtrip_full (false: not_write_read_roundtrip_full); write_read_roundtrip_readable as first stated lacks one clause "
+            "(every extra field <= 65507 bytes, else the ZIP64 extra of a re-synthesised >= 4 GiB record overflows its 16-bit length): proved "
+            "with it as write_read_roundtrip_readable_partial / rewrite_roundtrip (valid output, kept + added members with metadata and data)",
+            "reemit_unmodified_full (false for the unrepaired GetOriginalDirectory: not_reemit_unmodified_full; the repaired function: "
+            "reemit_original_directory, proved for every relicReadable archive; WriteDirectory: reemit_unmodified_readable, exact class canonEnds)",
+            "write_read_roundtrip_readable / zip_rewrite_preserves_members_full stay defs: the first lacks the extra-field clause, the second "
+            "is refuted (C03 not_zip_rewrite_preserves_members_full: without the fixed-layout ZIP64 clause, F7e)"]
 IMPL_PARALLEL = 16
 
 READ_FLAGS = {"eocd-comment": "F7c", "tiny": "F7c", "desc-nosig": "F7d", "zip64-partial": "F7e"}
@@ -47,6 +51,8 @@ def parse_tag(tag):
             t["orig"] = part[5:]
         elif part.startswith("godfix="):
             t["godfix"] = part[7:]
+        elif part.split("=")[0] in ("fwd", "fwds", "canon", "room", "rt", "rdbl"):
+            t[part.split("=")[0]] = part.split("=", 1)[1]
     i, j = tag.find("st=[ "), tag.find(" ] orig=")
     if i >= 0 and j >= 0:
         body = tag[i + 5:j].strip()
@@ -80,7 +86,7 @@ def _sha(x):
 
 
 def nontrivial(op, mres, tag):
-    if op.split(" ")[1] == "wd":
+    if op.split(" ")[1] in ("wd", "wdx"):
         return True
     if op.split(" ")[1] == "read":
         return mres.startswith("R ok") and " n=0 " not in mres
@@ -94,6 +100,8 @@ def branch(op, mres, tag):
     sv = "valid" if t["valid"] else "invalid"
     if kind == "wd":
         return "wd:" + ("zip64" if "504b0606" in mres else "plain")
+    if kind == "wdx":
+        return "wdx:" + ("fits" if int(op.split(" ")[2]) + 28 < 65536 else "over")
     if kind == "many":
         return "many:" + ("zip64" if int(op.split(" ")[2]) + int(op.split(" ")[3]) >= 65535 else "plain")
     if kind == "read":
@@ -109,6 +117,21 @@ def evaluate(op, il, mres, tag, origin, pyline=None):
     out = []
     if kind == "wd":
         return out
+    if kind == "wdx":
+        # the record GetDirectoryHeader synthesises must be as long as its own length fields say (else no reader finds the
+        # next record): Props/C17_Write extraRoom_necessary
+        n, cs, us, off = [int(x) for x in op.split(" ")[2:6]]
+        g = core.split(" ")
+        if g[0] == "ok" and len(g) >= 5:
+            head = bytes.fromhex(g[4])
+            le16 = lambda b: b[0] | b[1] << 8
+            if 46 + le16(head[28:]) + le16(head[30:]) + le16(head[32:]) != int(g[1]):
+                big = cs >= 0xffffffff or us >= 0xffffffff or off >= 0xffffffff
+                cause = "wdx-extralen-overflow" if (big and n + 28 >= 65536) else "wdx-record-length-differs"
+                out.append(("Relic.Props.C17.rewrite_roundtrip", cause, "ExtraLen = %d" % (int(g[1]) - 46 - le16(head[28:]) - le16(head[32:])),
+                            "GetDirectoryHeader: the central record says ExtraLen=%d but carries %d extra bytes (extra field of %d bytes, "
+                            "ZIP64 field prepended)" % (le16(head[30:]), int(g[1]) - 46 - le16(head[28:]) - le16(head[32:]), n)))
+        return out
     if kind == "many":
         kv = dict(x.split("=", 1) for x in core.split(" ")[1:] if "=" in x)
         if not core.startswith("ok ") or kv.get("go") != "ok":
@@ -122,6 +145,11 @@ def evaluate(op, il, mres, tag, origin, pyline=None):
         if t["valid"] and "contig" in t["flags"] and not core.startswith("ok "):
             out.append(("Relic.Props.C17.write_read_roundtrip_partial", "rewrite-refused:" + core.replace("err ", ""),
                         "ok <archive>", "relic refuses to rewrite a valid, contiguous archive"))
+        # rewrite_roundtrip_small evaluated by the specification on the model's output (= the implementation's, by the tie)
+        if (t["valid"] and "contig" in t["flags"] and t.get("rdbl") == "1" and t.get("room") == "1"
+                and t.get("rt") == "bad"):
+            out.append(("Relic.Props.C17.rewrite_roundtrip_small", "rewrite-view-differs", "kept ++ added views",
+                        "Spec.Zip reads something else than the kept and the requested members in the archive relic wrote"))
         return out
     # read
     G = ex.get("G", "")
@@ -136,6 +164,12 @@ def evaluate(op, il, mres, tag, origin, pyline=None):
             if got != origin["exp"]:
                 out.append(("Relic.Props.C17.write_read_roundtrip_partial", "rewrite-output-content", ",".join(origin["exp"]),
                             "archive written by relic does not hold the kept and added members: " + ",".join(got)))
+    # rewrite_roundtrip: what relic wrote from a readable contiguous input is again relicReadable, unless an added member is
+    # empty with a descriptor (F7a) or the output is the 22-byte empty archive (F7c-tiny)
+    if (origin is not None and origin["claim"] and origin.get("readable_in") and origin.get("newsok")
+            and len(op.split(" ")[2]) >= 84 and t["valid"] and t.get("rdbl") != "1"):
+        out.append(("Relic.Props.C17.rewrite_roundtrip", "rewrite-output-unreadable", "rdbl=1",
+                    "archive written by relic from a readable input is outside the class relicReadable"))
     if not t["valid"]:
         return out
     thm = "Relic.Props.C17.read_agrees_spec_partial"
@@ -192,6 +226,27 @@ def evaluate(op, il, mres, tag, origin, pyline=None):
         if wd.split(":")[0] != t["orig"].split(":")[0]:
             out.append(("Relic.Props.C17.reemit_unmodified", "wd-entries-differ", t["orig"].split(":")[0][:200],
                         "WriteDirectory of an unmodified directory does not re-emit the original central entries"))
+        # reemit_unmodified_readable: the end records are reproduced exactly on canonEnds
+        if t.get("rdbl") == "1" and t.get("canon") in ("0", "1"):
+            same = wd.split(":")[1] == t["orig"].split(":")[1]
+            if same != (t["canon"] == "1"):
+                out.append(("Relic.Props.C17.reemit_unmodified_readable", "wd-ends-" + ("differ" if not same else "equal-outside-canon"),
+                            "end records reproduced iff canonEnds", "canon=%s but WriteDirectory %s the original end records"
+                            % (t["canon"], "reproduces" if same else "does not reproduce")))
+    # stream_forward_readable: forward order follows from validity on the readable class
+    if t.get("rdbl") == "1" and t.get("fwds") == "0":
+        out.append(("Relic.Props.C17.stream_forward_readable", "not-forward", "fwds=1",
+                    "a valid relicReadable archive whose members do not lie forward of one another (true descriptor widths)"))
+    # stream_equals_random_access: forward order in relic's measure => the single pass reports what random access reports
+    if rpart.startswith("ok") and spart.startswith("ok") and t.get("fwd") == "1":
+        rr = rows_of(rpart.split(" wd=")[0])
+        sr = rows_of(spart)
+        tots = [r.split(" ")[7].split(":")[2] if r.split(" ")[7].startswith("t:") else None for r in rr]
+        if None not in tots:
+            got = [x.split(":")[1] if x.startswith("d:") else x for x in sr]
+            if got != tots:
+                out.append(("Relic.Props.C17.stream_equals_random_access", "stream-size-differs", ",".join(tots),
+                            "forward-ordered archive: the single pass reports " + ",".join(got)))
     # single pass
     if not spart.startswith("ok"):
         out.append((thm, "stream-refused:" + spart.replace("err ", "").replace("panic ", "panic-"), "ok", "relic refuses a valid archive (streaming)"))
@@ -293,7 +348,12 @@ def run(ctx):
             if op.split(" ")[1] == "rewrite" and core.startswith("ok "):
                 outhex = core.split(" ")[1]
                 exp = ex.get("E", "unknown").split(",") if ex.get("E") else []
-                nxt.append((outhex, {"claim": t["valid"] and "contig" in t["flags"], "flags": t["flags"], "exp": exp, "from": op[:80]}))
+                f = op.split(" ")
+                k = int(f[7]) if len(f) > 7 else 0
+                news = [f[8 + 7 * i:15 + 7 * i] for i in range(k)]
+                newsok = all(not (n[6] == "1" and n[3] == "0") for n in news if len(n) == 7)
+                nxt.append((outhex, {"claim": t["valid"] and "contig" in t["flags"], "flags": t["flags"], "exp": exp, "from": op[:80],
+                                     "readable_in": t.get("rdbl") == "1" and t.get("room") == "1", "newsok": newsok}))
         return nxt
 
     if ctx.get("replay_ops") is not None:
